@@ -430,11 +430,16 @@ fn lookalike(dna: &mut Dna, out: &mut Vec<u8>) -> &'static str {
 }
 
 pub fn gen_file(dna: &mut Dna) -> FileCase {
+    gen_file_opts(dna, false)
+}
+
+/// `small`: few segments, embedded plaintexts just above the 1024 byte threshold (cheap containers)
+pub fn gen_file_opts(dna: &mut Dna, small: bool) -> FileCase {
     let mut out: Vec<u8> = Vec::new();
     let mut labels: Vec<String> = vec![];
     let mut embedded = vec![];
     let mut desc = String::new();
-    let nseg = match dna.weighted(&[10, 40, 30, 20]) {
+    let nseg = match dna.weighted(if small { &[5, 70, 25, 0] } else { &[10, 40, 30, 20] }) {
         0 => 0,
         1 => dna.range(1, 2),
         2 => dna.range(3, 5),
@@ -443,7 +448,7 @@ pub fn gen_file(dna: &mut Dna) -> FileCase {
     for _ in 0..nseg {
         match dna.weighted(&[20, 25, 55]) {
             0 => {
-                let j = junk(dna, false, 2000);
+                let j = junk(dna, false, if small { 60 } else { 2000 });
                 out.extend_from_slice(&j);
                 labels.push("seg:junk".into());
             }
@@ -453,7 +458,15 @@ pub fn gen_file(dna: &mut Dna) -> FileCase {
                 desc.push_str(&format!("[{}]", l));
             }
             _ => {
-                let size = pick_embedded_plain_size(dna);
+                let size = if small {
+                    match dna.weighted(&[70, 20, 10]) {
+                        0 => dna.range(1025, 1500),
+                        1 => dna.range(1500, 4000),
+                        _ => dna.range(900, 1024),
+                    }
+                } else {
+                    pick_embedded_plain_size(dna)
+                };
                 let (stream, plain, sdesc) = gen_embedded_stream(dna, true, size);
                 let mut m = Mix::new(dna.u64());
                 let wstart = out.len();
